@@ -1749,6 +1749,18 @@ class PSBTOut:
                 raise ValueError(
                     "RedeemScript hash160 and ScriptPubKey hash160 do not match"
                 )
+            if self.redeem_script.is_p2wpkh():
+                # p2sh-p2wpkh: the RedeemScript has the hash160 of the pubkey
+                if len(self.named_pubs) > 1:
+                    raise ValueError("too many pubkeys in p2sh-p2wpkh")
+                for named_pub in self.named_pubs.values():
+                    if self.redeem_script.commands[1] != named_pub.hash160():
+                        raise ValueError(
+                            "pubkey {} does not match the hash160".format(
+                                named_pub.sec().hex()
+                            )
+                        )
+                return
             for sec in self.named_pubs.keys():
                 try:
                     # this will raise a ValueError if it's not in there
